@@ -76,6 +76,14 @@ func runOrder(c *Ctx, sc *ordScenario, script []int) []int {
 	s.Drain(1, 100)
 	c.checkMessageClaims(s)
 	s.Close()
+	// hundreds of runs per scenario stay referenced until the scenario ends: drop what only the judging needed
+	for _, o := range s.ops {
+		for _, ot := range o.Txs {
+			ot.Prev, ot.Next = nil, nil
+		}
+	}
+	s.mon.taskHist = nil
+	s.sys, s.api, s.met, s.aio, s.router, s.sendw, s.snap, s.sent = nil, nil, nil, nil, nil, nil, nil, nil
 	return widths
 }
 
